@@ -486,6 +486,16 @@ theorem varMatches_names {key : Str} {j : J} {b : XmlVar} (h : varMatches key j 
 def stepP (fac : Factory) (recE : Val → Except Err J) (fs : List (Str × Val)) (P : Params) (var : XmlVar) : Params :=
   if keepP fac (pairOf fac recE fs var) && var.init then P.set var.name (xOf fs var) else P
 
+/-- under the key the encoder writes, `unwrapFor` is `unwrapValue` (a wrapper is never named
+like its field) -/
+theorem unwrapFor_keyOf (var : XmlVar) (h : ∀ w, wrapperName var.toVarCore = some w → var.localName ≠ w)
+    (fac : Factory) (recE : Val → Except Err J) (fs : List (Str × Val)) :
+    unwrapFor var (pairOf fac recE fs var).1 (pairOf fac recE fs var).2 = unwrapValue var (pairOf fac recE fs var).2 := by
+  unfold unwrapFor pairOf keyOf
+  cases hw : wrapperName var.toVarCore with
+  | none => simp [unwrapValue, hw]
+  | some w => simp [h w hw]
+
 theorem bindPairs_eq (e : BEnv) (recD : Rec) (Γ : Ctx) (cfg : ParserConfig) (m : XmlMeta) (vars : List XmlVar)
     (fac : Factory) (recE : Val → Except Err J) (fs : List (Str × Val)) :
     ∀ (vars' : List XmlVar) (P : Params),
@@ -493,7 +503,8 @@ theorem bindPairs_eq (e : BEnv) (recD : Rec) (Γ : Ctx) (cfg : ParserConfig) (m 
         findVar vars (keyOf var.toVarCore) (jOf fac recE fs var) = some var ∧
         (∃ j', unwrapValue var (jOf fac recE fs var) = .ok j' ∧
           bindValueWith e recD Γ cfg m var j' = ND.pure (xOf fs var)) ∧
-        (var.init = true ∨ fixedOK e var (xOf fs var) = true)) →
+        (var.init = true ∨ fixedOK e var (xOf fs var) = true) ∧
+        (∀ w, wrapperName var.toVarCore = some w → var.localName ≠ w)) →
       bindPairsWith e recD Γ cfg m vars ((vars'.map (pairOf fac recE fs)).filter (keepP fac)) P
         = ND.pure (vars'.foldl (stepP fac recE fs) P) := by
   intro vars'
@@ -501,13 +512,14 @@ theorem bindPairs_eq (e : BEnv) (recD : Rec) (Γ : Ctx) (cfg : ParserConfig) (m 
   | nil => intro P _; rfl
   | cons var rest ih =>
     intro P h
-    obtain ⟨hfind, ⟨j', hun, hbind⟩, hinit⟩ := h var (List.mem_cons_self ..)
+    obtain ⟨hfind, ⟨j', hun, hbind⟩, hinit, hwne⟩ := h var (List.mem_cons_self ..)
     have hrest := fun P' => ih P' (fun v hv => h v (List.mem_cons_of_mem _ hv))
     simp only [List.map_cons, List.foldl_cons]
     by_cases hk : keepP fac (pairOf fac recE fs var) = true
     · rw [List.filter_cons_of_pos hk]
       have hfind' : findVar vars (pairOf fac recE fs var).1 (pairOf fac recE fs var).2 = some var := hfind
-      have hun' : unwrapValue var (pairOf fac recE fs var).2 = .ok j' := hun
+      have hun' : unwrapFor var (pairOf fac recE fs var).1 (pairOf fac recE fs var).2 = .ok j' := by
+        rw [unwrapFor_keyOf var hwne fac recE fs]; exact hun
       unfold bindPairsWith
       simp only [hfind', hun', hbind, nd_pure_bind]
       by_cases hi : var.init = true
@@ -728,7 +740,7 @@ theorem rt_step (e : BEnv) (Γ : Ctx) (fac : Factory) (n : Nat) (ih : IH e Γ fa
       (allVars m) [] (by
         intro var hvar
         obtain ⟨_, _, _, hm, hrest⟩ := hper cfg var hvar
-        refine ⟨?_, hrest, ?_⟩
+        refine ⟨?_, hrest, ?_, fun w hw => (varOKj_wrapper (cv var hvar) w hw).2⟩
         · apply find?_unique _ _ var hvar hm
           intro b hb hbm
           exact cuniq var hvar b hb (varMatches_names hbm)
